@@ -201,6 +201,12 @@ impl Check for C05 {
         // reclamation audit (quarantine)
         schedules.push(sched(GcPlan::Every, true, 64 << 20));
         schedules.push(sched(GcPlan::EveryKth(7, 3), true, 64 << 20));
+        // few, large collections: each has thousands of objects to sweep at once
+        if a > 600 {
+            let k = (a / 3).max(300);
+            schedules.push(sched(GcPlan::EveryKth(k, k - 1), true, 64 << 20));
+            schedules.push(sched(GcPlan::At([a - 1].into_iter().collect()), true, 64 << 20));
+        }
         for (i, s) in schedules.iter().enumerate() {
             ctx.progress(&format!("run sched {i}"));
             let before_gc = ctx.stats.get("fault:collections_natural").copied().unwrap_or(0)
